@@ -154,6 +154,7 @@ MENU = {
     "filter(nothing)": lambda x, m: x[x.i < 0],
     "assign(f+i)": lambda x, m: x.assign(z=x.f + x.i),
     "assign(scalar)": lambda x, m: x.assign(z=1),
+    "assign(c).assign(d).assign(c)": lambda x, m: x[["i", "f"]].assign(c=x.i + 1).assign(d=x.i * 2).assign(c=x.i - 1),
     "assign(str)": lambda x, m: x.assign(z=x.s + "!"),
     "assign(replace i by float)": lambda x, m: x.assign(i=x.i * 0.5),
     "i+f": lambda x, m: x.i + x.f,
@@ -415,7 +416,8 @@ MENU = {
 # documented limitations (message fragments): a program that hits one is skipped and counted, never judged
 LIMITATIONS = ["Can only rolling dataframes with known divisions", "All NaN partition encountered", "Partition size is less than",
                "Not all divisions are known",
-               "attempt to get arg"]        # idxmin / idxmax of an EMPTY frame (two-step programs): pandas raises the same ValueError
+               "attempt to get arg",        # idxmin / idxmax of an EMPTY frame (two-step programs): pandas raises the same ValueError
+               "Encountered all NA values"]  # idxmin / idxmax with an all-NaN partition raise (a result question: C37), nothing to describe
 
 # call sites: menu entries that exercise ONE code path of dask share a site, so one root cause has one signature
 SITE = {}
@@ -426,7 +428,7 @@ for _site, _names in {
     "str-accessor(int result)": ["str.len", "str.count", "str.find"],
     "merge/join(unmatched rows)": ["merge(outer)", "merge(right)", "merge(left)", "merge(index,outer)", "merge(indicator)", "join(outer)", "join"],
     "reduction(min/max)": ["i.min", "t.max", "s.min", "frame.min(num)", "frame.max(i,u)"],
-    "cumulative(frame)": ["frame.cumsum"],
+    "cumulative(empty partition)": ["frame.cumsum", "i.cumsum", "u.cumsum", "i.cumprod", "i.cummax", "f.cumsum"],
     "cumulative(bool)": ["b.cumsum"],
 }.items():
     for _n in _names:
@@ -549,6 +551,8 @@ def classify(rec, clauses):
     """Call site = the operation that produced the collection; the failing clause group; whether only
     single partitions disagree (an empty / special partition) or the whole result does."""
     cs = set(clauses)
+    if rec["opname"] == "raw-index-array":
+        return "raw-index-array"          # one input class (see the C36 finding), whatever field disagrees
     if "Raised" in cs:
         return "%s:raised" % site_of(rec["opname"])
     whole = cs & {"Kind", "Cols", "Dtypes", "IName", "IDtype"}
